@@ -144,7 +144,7 @@ fn wipe_target(opts: &crate::model::OptSpec) -> Option<String> {
 }
 
 /// The process-wide working directory is shared: one real-FS library execution at a time.
-static CWD_LOCK: std::sync::Mutex<()> = std::sync::Mutex::new(());
+use crate::exec::CWD_LOCK;
 
 /// Tier B': the real `Source::FileSystem` arm through the library API, in this process,
 /// with a tmpfs scratch directory as working directory (covers what the command line
